@@ -5076,6 +5076,120 @@ def r_configure(P, R):
 r_configure.NAME = 'R-RAW(configure model)'
 
 
+def reorder_real_model(P, R):
+    """`dd.bdd.reorder(bdd, order)` and `reorder(bdd)` (sifting)
+    interpreted with everything they call - real swaps, collection - on
+    managers over three variables that hold referenced functions and
+    nodes nobody references any more, followed by a collection.  C07 /
+    C06 / C08: no refusal; the requested order holds; every referenced
+    node keeps its number and its function; tables and counts are
+    consistent after the reordering and after the collection; the
+    collection leaves exactly the nodes below the references."""
+    import itertools
+    f = P.func('dd.bdd.reorder')
+    cg = P.func('dd.bdd.BDD.collect_garbage')
+    stubs = ClassStubs(P, 'dd.bdd.BDD', extra={
+        '_request_reordering': lambda m, c, a, k: None,
+        'getEffectiveLevel': lambda m, c, a, k: 100})
+    resolver = interp.ModuleEnv(P, 'dd.bdd', stubs)
+    names = ['a', 'b', 'c']
+    rows = list(itertools.product((False, True), repeat=3))
+    tts = [tuple(bool(a != b) for a, b, c in rows),
+           tuple(bool(b if a else c) for a, b, c in rows),
+           tuple(bool(a or b) for a, b, c in rows),
+           tuple(bool(a) for a, b, c in rows),
+           tuple(bool((a != b) and c) for a, b, c in rows)]
+    prm = list(f.params)
+    problems = dict()
+    n = 0
+    try:
+        for start in (['a', 'b', 'c'], ['b', 'c', 'a']):
+            for kept in ([0, 1, 2, 3, 4], [3], [1, 3], [0, 4], [2]):
+                base, ext = _build_manager(
+                    start, tts, kept, keep_garbage=True)
+                for target in (['c', 'b', 'a'], ['b', 'a', 'c'],
+                               ['c', 'a', 'b'], None):
+                    n += 1
+                    obj = _object_manager(copy.deepcopy(
+                        {k: v for k, v in base.items() if k != 'self'}))
+                    order = None if target is None else {
+                        v: target.index(v) for v in sorted(target)}
+                    out, _ = interp.run_function(
+                        f.node, {prm[0]: obj, prm[1]: order}, stubs,
+                        resolver)
+                    what = (f'order {start}, nodes '
+                            f'{base["self._succ"]}, referenced '
+                            f'{sorted(ext)}: reorder('
+                            f'{"sifting" if order is None else order})')
+                    if out[0] == 'raise':
+                        problems.setdefault('raises', (
+                            f'{what}: raises {out[1]}'))
+                        continue
+                    if order is not None and obj.attrs['vars'] != order:
+                        problems.setdefault('order-not-reached', (
+                            f'{what}: ends with {obj.attrs["vars"]}'))
+                        continue
+                    stage = 'after the reordering'
+                    bad = None
+                    for step in (0, 1):
+                        env = {f'self.{k}': v
+                               for k, v in obj.attrs.items()}
+                        bad = _manager_complaints(env, dict(ext))
+                        if bad is None:
+                            for r_ in ext:
+                                if abs(r_) not in obj.attrs['_succ'] or \
+                                        _tt_obj(obj, r_, names) != _tt_of(
+                                            base, r_, names):
+                                    bad = (f'the referenced node {r_} '
+                                           'does not denote what it did')
+                        if bad or step:
+                            break
+                        o2, _ = interp.run_function(
+                            cg.node, {'self': obj, [
+                                p_ for p_ in cg.params
+                                if p_ != 'self'][0]: None}, stubs,
+                            resolver)
+                        stage = 'after the reordering and a collection'
+                        if o2[0] == 'raise':
+                            bad = f'the collection raises {o2[1]}'
+                            break
+                    if bad is None:
+                        succ = obj.attrs['_succ']
+                        live, todo = {1}, [abs(r_) for r_ in ext]
+                        while todo:
+                            x = todo.pop()
+                            if x in live:
+                                continue
+                            live.add(x)
+                            todo += [abs(succ[x][1]), abs(succ[x][2])]
+                        if set(succ) != live:
+                            bad = (f'the nodes {sorted(set(succ) - live)} '
+                                   'stay although nothing refers to them')
+                    if bad:
+                        problems.setdefault('tables', (
+                            f'{what}, {stage}: {bad}'))
+    except (interp.Unknown, KeyError) as e:
+        R.undecided('R-REORDER', f.qualname, 'reordering model', str(e))
+        return None
+    for sub, msg in sorted(problems.items()):
+        R.violation('R-REORDER', f'real-{sub}', f.qualname, 'reorder', msg,
+                    unit=f.unit.rel, line=f.lineno)
+    if not problems:
+        R.holds('R-REORDER', f.qualname,
+                f'reordering model ({n} calls with real swaps, on '
+                'managers that hold unreferenced nodes): order reached, '
+                'references keep their functions, tables and counts '
+                'consistent before and after a collection')
+    return n
+
+
+def r_reorder_real(P, R):
+    n = reorder_real_model(P, R)
+    if n is not None:
+        R.floor('R-REORDER calls of the real reordering model', n, 30)
+r_reorder_real.NAME = 'R-REORDER(real reordering model)'
+
+
 def dot_model(P, R):
     """`dd.bdd._to_dot(roots, bdd)` interpreted (with `dd._utils.DotGraph`)
     on small managers: the graph it builds must show, for every node
